@@ -1346,6 +1346,11 @@ def check_none(run: Run, prog: Program) -> None:
     `assert x is not None` / `if x is None` makes every regular call fail or compute with None)."""
     fns = [prog.func(f"{BUF}:OrderedRingBuffer.{m}") for m in NONE_SCOPE] + [prog.func(f"{MW}:MovingWindow.at")] \
         + [_role_func(prog, "update_gaps"), _role_func(prog, "remove_gap")]
+    # private value helpers are spliced into their callers without their assertions: read them on their own too
+    scope = {f.name for f in fns}
+    fns += [m for name, m in sorted(_ring(prog).methods.items()) if name.startswith("_") and not name.startswith("__")
+            and name not in scope and name not in _roles(prog).values()
+            and any(isinstance(x, ast.Assert) for x in walk_no_nested(m.node))]
     n = 0
     for fn in fns:
         run.analysed(fn.qual)
